@@ -147,11 +147,14 @@ def gen(rng, tier, dist):
     # ---- trees
     ntree = 700 if tier == "quick" else 25000
     for k in range(ntree):
-        dirty = rng.random() < 0.35
+        r = rng.random()
+        dirty = True if r < 0.3 else ('digits' if r < 0.5 else False)
         depth = rng.choice([1, 2, 2, 3, 3, 4])
         t = pc.gen_tree(rng, depth, dirty, maxports=rng.choice([2, 3, 4, 5, 6]))
         et = pc.enc_tree(t)
-        bump(dist, "tree-depth-%d-%s" % (depth, "dirty" if dirty else "clean"))
+        bump(dist, "tree-depth-%d-%s" % (depth, "dirty" if dirty is True else "digits" if dirty else "clean"))
+        if dirty == 'digits':
+            bump(dist, "names_ok-trees-with-literal-digits", 1 if pc.names_ok(t) else 0)
         bump(dist, "names_ok-trees", 1 if pc.names_ok(t) else 0)
         walked = pc.spec_walk(t)
         subs = pc.subtrees(t)
